@@ -25,6 +25,11 @@ type runner struct {
 	noGC  bool // sensitivity/self-test aid: ignore gc steps
 
 	mainInstEver, mainCMEver []bool
+
+	// cut: the main world legitimately answered a state-changing call with an exit error (the
+	// callee was closed) while the twin performed it; the worlds differ from here on and the
+	// rest of the history is not executed.
+	cut bool
 }
 
 func sameObs(a, b obs) bool {
@@ -166,6 +171,23 @@ func (r *runner) do(i int, s step) (viol, harness string) {
 			return "", fmt.Sprintf("%s failed in the twin: %v", what, ot)
 		}
 		return r.judgeStrict(what, om, ot), ""
+	case "mem":
+		n, known := memFns[s.Fn]
+		if !r.live(s.Inst) || !known {
+			return
+		}
+		args := []uint64{uint64(s.Arg), uint64(s.Val)}[:n]
+		om, ot := m.call(s.Inst, s.Fn, args...), t.call(s.Inst, s.Fn, args...)
+		if _, forwarded := baseOf[s.Fn]; !forwarded {
+			return r.judgeStrict(what, om, ot), ""
+		}
+		if msg := r.judge(what, om, ot); msg != "" {
+			return msg, ""
+		}
+		if !sameObs(om, ot) {
+			r.cut = true
+			r.res.Labels["history-cut-after-exit-error-of-state-changing-call"]++
+		}
 	case "long":
 		if !r.live(s.Inst) {
 			m.calls = append(m.calls, &callH{finished: true, result: obs{Out: wz.Outcome{Kind: "skipped"}}})
@@ -344,7 +366,7 @@ func runHistory(h *history, noGC bool) *result {
 		for k := nc; k < len(r.main.cms); k++ {
 			r.mainCMEver = append(r.mainCMEver, r.main.cms[k] != nil)
 		}
-		if res.Violation != "" || res.Harness != "" {
+		if res.Violation != "" || res.Harness != "" || r.cut {
 			return res
 		}
 		if res.Violation = r.probe(i, s); res.Violation != "" {
